@@ -165,6 +165,8 @@ def dag(shape, comps=None, vols=None, data=None, ids=None):
         "bfly": (4, [(0, 2), (0, 3), (1, 2), (1, 3)]),
         "bfly3": (5, [(0, 2), (0, 3), (0, 4), (1, 2), (1, 3), (1, 4)]),
         "wjoin": (4, [(0, 3), (1, 3), (2, 3)]),
+        "tri": (3, [(0, 1), (1, 2), (0, 2)]),
+        "diamond-skip": (4, [(0, 1), (0, 2), (1, 3), (2, 3), (0, 3)]),
         "chains22": (4, [(0, 1), (2, 3)]),
         "chain2+1": (3, [(0, 1)]),
     }
